@@ -145,7 +145,7 @@ def run(tier):
         for alg, top in (("cube4D", 60), ("randomQ", 110)):
             ns = set(range(4, 25)) | {40, 41} | set(int(x) for x in rng.integers(25, top, size=5))
             if alg == "randomQ":
-                ns |= {84, 101, 280}  # 280: one probe beyond the stated bound (first grids with faces of area < 1e-8)
+                ns |= {84, 101, 150, 280}  # 150: mid-range size; 280: one probe beyond the stated bound (first grids with faces of area < 1e-8)
             cases += [{"alg": alg, "N": n} for n in ns]
     else:
         for alg in ("cube4D", "randomQ"):
@@ -158,7 +158,7 @@ def run(tier):
     res.violations.sort(key=lambda v: v["case"]["N"])
     if res.extra.get("pairs_with_0", 0) == 0 or res.extra.get("pairs_only_via_antipode", 0) == 0:
         res.notes.append("WEAK RUN: no pair involving index 0 / adjacent only through the antipodal copy was explored")
-    rule = ("enumeration of (algorithm, N) for cube4D and randomQ: " + ("every N in 4..24, 40, 41, (84, 101 and the beyond-bound probe 280 for randomQ) and 5 seeded "
+    rule = ("enumeration of (algorithm, N) for cube4D and randomQ: " + ("every N in 4..24, 40, 41, (84, 101, 150 and the beyond-bound probe 280 for randomQ) and 5 seeded "
             "larger N each (to 60 / 110)" if tier == "quick" else "every N in 4..100, every 4th N to 272, 224, 225, 271, 272")
             + "; every rotation pair judged via hull-edge candidates on the 2N double cover. Non-trivial = grid with at least one "
               "adjacent pair involving rotation 0 and at least one pair adjacent only through the antipodal copy; distinct = "
